@@ -946,7 +946,7 @@ def submit_all(ctx, jobs):
     for scen in ("response", "handshake"):
         name = f"StreamRdFilter {scen} (filter-process consumer: flush-pkt vs empty packet)"
         jobs.gens.append((name, "filter", {}))
-        jobs.submit(name, "StreamRdFilter.tla", f"StreamRdFilter_{scen}.cfg", workers=1)
+        jobs.submit(name, "StreamRdFilter.tla", f"StreamRdFilter_{scen}{'_q' if q and scen == 'response' else ''}.cfg", workers=1)
 
     def gen(name, kind, spec, constants, invs, extra=None, workers=2):
         jobs.gens.append((name, kind, extra or {}))
